@@ -80,6 +80,10 @@ func c18start(transport int, exitWait time.Duration, hooks []int) *c18srv {
 			s.hookMu.Lock()
 			s.hookLog = append(s.hookLog, fmt.Sprintf("start%d", i))
 			s.hookMu.Unlock()
+			if ms >= 2000 { // a hook that ignores its context and outlives the exit wait time
+				time.Sleep(time.Duration(ms) * time.Millisecond)
+				return
+			}
 			select {
 			case <-time.After(time.Duration(ms) * time.Millisecond):
 				s.hookMu.Lock()
@@ -290,11 +294,12 @@ func init() {
 		Gen: func(t *T) {
 			for i := 0; i < t.Scale(40, 600); i++ {
 				ew := []int{150, 400, 1200}[t.R.Intn(3)]
-				hooks := [][]string{{}, {"1"}, {"1", "40"}, {"30", fmt.Sprint(ew + 500)}}[t.R.Intn(4)]
+				hooks := [][]string{{}, {"1"}, {"1", "40"}, {"30", fmt.Sprint(ew + 500)}, {"5", fmt.Sprint(ew + 2500)}}[t.R.Intn(5)]
 				t.Do(In{Nn(t.R.Intn(1 << 30)), Nn(t.R.Intn(2)), Nn(ew), Nn(1 + t.R.Intn(4)), S(strings.Join(hooks, ","))}, true)
 			}
-			// a server that is not running
-			t.Do(In{Nn(0), Nn(0), Nn(100), Nn(0), S("")}, true)
+			// directed: a hook that ignores its context and outlives the exit wait time, on both transports
+			t.Do(In{Nn(5), Nn(0), Nn(150), Nn(1), S("5,2650")}, true)
+			t.Do(In{Nn(6), Nn(1), Nn(150), Nn(2), S("2650")}, true)
 		}})
 }
 
